@@ -32,6 +32,12 @@ def pool(rng, scratch):
         items.append(("template-%s" % nm, {"text": H + "Op({%s}, 2 * {%s}) | 0\n" % (nm, nm)}))
         items.append(("array-%s" % nm, {"text": H + "float array %s =\n    1, 2\nOp(%s) | 0\n" % (nm, nm)}))
         items.append(("bad-mode-%s" % nm, {"text": H + "float %s = 0.5\nOp | %s\n" % (nm, nm)}))
+        # failures of every exception class after the name has been bound (TypeError, ValueError, IndexError, ZeroDivisionError ...)
+        items.append(("fails-cast-after-binding-%s" % nm, {"text": H + "int %s = %d\nfloat zz9 = 2j\nOp(1) | 0\n" % (nm, v)}))
+        items.append(("fails-index-after-binding-%s" % nm, {"text": H + "int %s = %d\nint array AA =\n    1, 2\nOp(AA[%d]) | 0\n" % (nm, v, v + 5)}))
+        items.append(("fails-loopvalue-after-binding-%s" % nm, {"text": H + "int %s = %d\nfor int i in [1, 2.5]\n    Op(i) | 0\n" % (nm, v)}))
+        items.append(("fails-mode-after-binding-%s" % nm, {"text": H + "int %s = %d\nOp(1) | 0.5\n" % (nm, v)}))
+        items.append(("fails-arity-after-binding-%s" % nm, {"text": H + "int %s = %d\nint array AB[2, 2] =\n    1, 2, 3\nOp(1) | 0\n" % (nm, v)}))
     items.append(("syntax-error", {"text": H + "int n = 3\nOp(1 2) | 0\n"}))
     # syntax errors at the very first token, at the end of the text, and a lexical one (state of a parser or lexer that
     # survived an earlier failure shows on exactly these)
@@ -118,6 +124,13 @@ def run(tier, seed):
         for a in syn:
             for b in syn:
                 hists.append([a, b])
+        # ... and every way of failing after binding a name, followed by the scripts whose metadata mention that name
+        for nm in ["n", "x", "alpha", "k", "p0", "m"]:
+            fails = [it for it in items if it[0].startswith("fails-") and it[0].endswith("-" + nm)] + [it for it in items if it[0] in ("bad-mode-" + nm, "loopvar-" + nm, "binds-" + nm, "array-" + nm)]
+            later = [it for it in items if it[0] in ("meta-mentions-" + nm, "type-mentions-" + nm, "uses-" + nm)]
+            for a in fails:
+                for b in later:
+                    hists.append([a, b])
         n = 150 if quick else 3000
         for _ in range(n):
             ln = rng.randint(2, 4 if quick else 6)
